@@ -234,6 +234,9 @@ func (e *ETypes) callTypes(call *ssa.Call, idx int, add func(string, token.Pos))
 		return
 	}
 	for _, f := range callees {
+		if m := BoundMethod(f); m != nil {
+			f = m // the synthetic wrapper of a method value: what it returns is what the method returns
+		}
 		if f.Pkg == nil || !strings.HasPrefix(f.Pkg.Pkg.Path(), ModPath) {
 			// library function: summarise well-known constructors, otherwise unknown
 			switch {
